@@ -271,10 +271,14 @@ def user_options(rng, dense=False):
     if rng.random() < pr:
         p.append("flags=%d" % rng.choice([0, 0x100, 0x110, 0x1, 0x101, 0x2, 0x102, 0x10, 0x400, 0x7ff, 0x120, 0x140, 0x300, 0x200 if rng.random() < 0.2 else 0x100]))
     c = rng.random()
-    if c < pr * 0.6:
+    if c < pr * 0.55:
         p.append("timeoutms=%d" % rng.choice([1, 250, 1234, 2000, 5000, 2147483647, 0, -1]))
+    elif c < pr * 0.95:
+        p.append("timeout=%d" % rng.choice([1, 2, 5, 30, 2147483, 2147484, 3000000, 4294967, 4294968, 2147483647, 0, -1]))
     elif c < pr:
-        p.append("timeout=%d" % rng.choice([1, 2, 5, 30, 2147483, 2147484, 3000000, 4294967, 4294968, 0, -1]))
+        # both bits name the same field: the C driver passes the value of timeout=
+        v = rng.choice([1, 5, 2147484, 0, -1])
+        p.append("timeoutms=%d&timeout=%d" % (v, v))
     if rng.random() < pr:
         p.append("tries=%d" % rng.choice([1, 2, 3, 5, 100, 2147483647, 0, -1]))
     if rng.random() < pr:
@@ -412,7 +416,6 @@ def gen_opt(rng):
         params.append("lip6=" + bytes(rng.randint(0, 255) for _ in range(16)).hex())
     if rng.random() < 0.6:
         params.append("poke=1")
-    # never ARES_OPT_TIMEOUT together with ARES_OPT_TIMEOUTMS (see docs/C16.md: uninitialised read in ares_dup)
     base = valid_resolv_lines(rng) if rng.random() < 0.8 else ["nameserver 9.9.9.9"]
     us = units("L", base)
     if rng.random() < 0.3:
@@ -459,16 +462,33 @@ def gen_fn(rng):
     return "fn,f=alias&name=%s|%s" % (hx(name), ";".join(t + hx(l) for t, l in ls))
 
 
+HOST_NAMES = ["myhost", "other", "Alias1", "v6host", "MYHOST", "a.b.example", "x_y", "h-1", "h*", "net/24", "1.2.3.4", "::1"]
+
+
 def gen_hosts(rng):
-    names = ["myhost", "other", "Alias1", "v6host"]
     ls = []
-    for _ in range(rng.randint(1, 6)):
-        ip = ipv4(rng) if rng.random() < 0.6 else ipv6_text(rng)
-        ls.append(("H", "%s%s%s" % (ip, rng.choice([" ", "\t", "   "]), " ".join(rng.choice(names) for _ in range(rng.randint(1, 3))))))
+    ips = [ipv4(rng) for _ in range(3)] + [ipv6_text(rng) for _ in range(2)]
+    for _ in range(rng.randint(1, 8)):
+        c = rng.random()
+        ip = rng.choice(ips) if c < 0.5 else (ipv4(rng) if c < 0.8 else ipv6_text(rng))
+        if rng.random() < 0.1:
+            ip = rng.choice(["01.2.3.4", "1.2.3", "0x01020304", "::ffff:1.2.3.4", "1:0:0:0:0:0:0:1", "FE80::1", "1.2.3.4/24"])
+        toks = [rng.choice(HOST_NAMES) for _ in range(rng.randint(1, 4))]
+        if rng.random() < 0.15:
+            toks.insert(rng.randint(0, len(toks)), rng.choice(["bad!name", "x" * 255, "x" * 256, "h\x01", "#c", "a#b", ip]))
+        line = rng.choice(["", " ", "\t"]) + ip + rng.choice([" ", "\t", "   ", " \t"]) + rng.choice([" ", "\t", "  "]).join(toks)
+        if rng.random() < 0.2:
+            line += rng.choice([" # comment", "#tail", " #"])
+        if rng.random() < 0.1:
+            line += "\r"
+        ls.append(("H", line))
     for _ in range(rng.randint(0, 4)):
-        j = rng.choice(["# comment", "", "   ", "junk line here", "not-an-ip myhost", "#1.2.3.4 myhost", "\x01\x02\x03", "x" * 5000, "zzz"])
+        j = rng.choice(["# comment", "", "   ", "\t\r", "junk line here", "not-an-ip myhost", "#1.2.3.4 myhost", "\x01\x02\x03", "x" * 5000 + " myhost", "zzz",
+                        "1.2.3.4", "1.2.3.4   ", "1.2.3.4 # myhost", "1.2.3.4 bad!name", "1.2.3.4 " + "x" * 300 + " myhost", "1.2.3.4 \x01 myhost",
+                        "1.2.3.4.5 myhost", "256.1.1.1 myhost", "12345::1 myhost", "1" * 46 + " myhost", "9.9.9.9 9.9.9.9", "   # indented", ":: #x"])
         ls.insert(rng.randint(0, len(ls)), ("h", j))
-    return "hosts,name=%s|%s" % (hx(rng.choice(names + ["nohost"])), ";".join(t + hx(l) for t, l in ls))
+    names = rng.sample(HOST_NAMES, 4) + ["nohost"]
+    return "hosts,names=%s%s|%s" % (",".join(hx(n) for n in names), "&noeol=1" if rng.random() < 0.1 else "", ";".join(t + hx(l) for t, l in ls))
 
 
 def gen(rng, tier, n):
@@ -519,3 +539,7 @@ def gen_c16(rng, tier, n):
         else:
             out.append("fn,f=addr|X" + hx(addr_text(rng)))
     return out
+
+
+def gen_hosts_only(rng, tier, n):
+    return [gen_hosts(rng) for _ in range(n)]
